@@ -462,8 +462,8 @@ func main() {
 			b, _ := json.Marshal(res)
 			out.Write(b)
 			out.WriteByte('\n')
-		}
-		if in.Buffered() == 0 || err != nil {
+			// every answer leaves at once: when the code under test kills the process (a fatal
+			// error no recover() catches), the first unanswered request is the one that did it
 			out.Flush()
 		}
 		if err != nil {
